@@ -147,6 +147,21 @@ def gen_errors(problems):
                         and st.test.args[1].value == 'ag_pass_through' and len(st.body) == 1 and isinstance(st.body[0], ast.Return):
                     honours = True
 
+    # the test by which _stack_trace_inside_mapped_code recognises the converter module's own frames
+    full_path = False
+    for node in eu.body:
+        if isinstance(node, ast.FunctionDef) and node.name == '_stack_trace_inside_mapped_code':
+            tests = [st.test for st in ast.walk(node) if isinstance(st, ast.If)
+                     and any(isinstance(n, ast.Name) and n.id == 'converter_filename' for n in ast.walk(st.test))]
+            if len(tests) == 1:
+                t = tests[0]
+                if isinstance(t, ast.Compare) and len(t.ops) == 1 and isinstance(t.ops[0], ast.Eq) \
+                        and isinstance(t.left, ast.Name) and isinstance(t.comparators[0], ast.Name) \
+                        and {t.left.id, t.comparators[0].id} == {'filename', 'converter_filename'}:
+                    full_path = True
+    if not full_path:
+        problems.append('_stack_trace_inside_mapped_code no longer recognises converter frames by `filename == converter_filename`')
+
     L = []
     L.append('/- GENERATED by tools/extract.py (extract_errors.py) from malt/pyct/error_utils.py and malt/impl/api.py — do not edit. -/')
     L.append('namespace Malt.Gen.Errors')
@@ -172,6 +187,16 @@ def gen_errors(problems):
     L.append('')
     L.append('/-- Does `api._attach_error_metadata` return at once for an exception carrying `ag_pass_through`? -/')
     L.append('def attachHonoursPassThrough : Bool := ' + ('true' if honours else 'false'))
+    L.append('')
+    L.append('/-- Does `_stack_trace_inside_mapped_code` recognise the converter module\'s own frames by FILE IDENTITY')
+    L.append('    (`filename == converter_filename`, full path equality)? -/')
+    L.append('def frameFilterComparesFullPath : Bool := ' + ('true' if full_path else 'false'))
+    L.append('')
+    L.append('/-- That test, as read from the source (left opaque when it is not the plain path comparison). -/')
+    if full_path:
+        L.append('def converterFrameTest (filename converterFilename : String) : Bool := decide (filename = converterFilename)')
+    else:
+        L.append('opaque converterFrameTest (filename converterFilename : String) : Bool')
     L.append('')
     L.append('end Malt.Gen.Errors')
     return '\n'.join(L) + '\n'
